@@ -148,3 +148,113 @@ pub proof fn lemma_byp_inverse(bs: Seq<bool>, tail: Seq<Sym>)
 {
     assert(sym_bits(byp_syms(bs) + tail, bs.len() as int) =~= bs);
 }
+
+// ---- exp-Golomb-like value code of the correction codec: unary bit length, then the bits below the top bit ----
+pub open spec fn bitlen(v: nat) -> nat
+    decreases v
+{
+    if v == 0 { 0 } else { 1 + bitlen(v / 2) }
+}
+
+pub proof fn lemma_bitlen_bounds(v: nat)
+    ensures
+        v > 0 ==> bitlen(v) >= 1 && vstd::arithmetic::power2::pow2((bitlen(v) - 1) as nat) <= v < vstd::arithmetic::power2::pow2(bitlen(v)),
+        v == 0 ==> bitlen(v) == 0,
+    decreases v
+{
+    use vstd::arithmetic::power2::*;
+    lemma2_to64();
+    if v > 0 {
+        lemma_bitlen_bounds(v / 2);
+        lemma_pow2_unfold(bitlen(v));
+        if v / 2 > 0 {
+            lemma_pow2_unfold((bitlen(v) - 1) as nat);
+        }
+    }
+}
+
+pub proof fn lemma_bitlen_unique(v: nat, b: nat)
+    requires b >= 1, vstd::arithmetic::power2::pow2((b - 1) as nat) <= v < vstd::arithmetic::power2::pow2(b),
+    ensures bitlen(v) == b,
+{
+    use vstd::arithmetic::power2::*;
+    lemma_bitlen_bounds(v);
+    lemma_pow2_pos((b - 1) as nat);
+    let c = bitlen(v);
+    if c < b { lemma_pow2_le(c, (b - 1) as nat); }
+    if c > b { lemma_pow2_le(b, (c - 1) as nat); }
+}
+
+pub open spec fn exp_syms(hu: Seq<Seq<bool>>, hb: Seq<Seq<bool>>, v: nat) -> Seq<Sym> {
+    let b = bitlen(v);
+    unary_syms(hu, b as int) + (if b > 1 { nbits_syms(hb, msb_bits(v, (b - 1) as nat)) } else { Seq::<Sym>::empty() })
+}
+
+pub open spec fn exp_hu(hu: Seq<Seq<bool>>, v: nat) -> Seq<Seq<bool>> { unary_hists(hu, bitlen(v) as int) }
+
+pub open spec fn exp_hb(hb: Seq<Seq<bool>>, v: nat) -> Seq<Seq<bool>> {
+    if bitlen(v) > 1 { nbits_hists(hb, msb_bits(v, (bitlen(v) - 1) as nat)) } else { hb }
+}
+
+/// reader side
+pub open spec fn exp_ok(rem: Seq<Sym>, hu: Seq<Seq<bool>>, hb: Seq<Seq<bool>>) -> bool {
+    unary_parse(rem, hu, 0) matches Some(b) && b <= 32 && (b > 1 ==> nbits_ok(rem.skip(b + 1), hb, b - 1))
+}
+
+pub open spec fn exp_val(rem: Seq<Sym>, hu: Seq<Seq<bool>>, hb: Seq<Seq<bool>>) -> nat {
+    let b = unary_parse(rem, hu, 0)->Some_0;
+    if b <= 1 { b as nat } else { val_of_bits(sym_bits(rem.skip(b + 1), b - 1)) + vstd::arithmetic::power2::pow2((b - 1) as nat) }
+}
+
+pub open spec fn exp_len(rem: Seq<Sym>, hu: Seq<Seq<bool>>, hb: Seq<Seq<bool>>) -> int {
+    let b = unary_parse(rem, hu, 0)->Some_0;
+    if b <= 1 { b + 1 } else { 2 * b }
+}
+
+pub open spec fn exp_rd_hu(rem: Seq<Sym>, hu: Seq<Seq<bool>>) -> Seq<Seq<bool>> { unary_hists(hu, unary_parse(rem, hu, 0)->Some_0) }
+
+pub open spec fn exp_rd_hb(rem: Seq<Sym>, hu: Seq<Seq<bool>>, hb: Seq<Seq<bool>>) -> Seq<Seq<bool>> {
+    let b = unary_parse(rem, hu, 0)->Some_0;
+    if b > 1 { nbits_hists(hb, sym_bits(rem.skip(b + 1), b - 1)) } else { hb }
+}
+
+/// INVERSE LAW (value code): what write_exp_encoded emits for v is accepted by read_exp_value and yields v,
+/// consumes exactly those symbols, and leaves the cells with the same histories on both sides
+pub proof fn lemma_exp_inverse(hu: Seq<Seq<bool>>, hb: Seq<Seq<bool>>, v: nat, tail: Seq<Sym>)
+    requires hu.len() > 0, v < 0x1_0000_0000,
+    ensures ({
+        let rem = exp_syms(hu, hb, v) + tail;
+        &&& exp_ok(rem, hu, hb)
+        &&& exp_val(rem, hu, hb) == v
+        &&& exp_len(rem, hu, hb) == exp_syms(hu, hb, v).len()
+        &&& rem.skip(exp_len(rem, hu, hb)) == tail
+        &&& exp_rd_hu(rem, hu) == exp_hu(hu, v)
+        &&& exp_rd_hb(rem, hu, hb) == exp_hb(hb, v)
+    }),
+{
+    use vstd::arithmetic::power2::*;
+    let b: int = bitlen(v) as int;
+    let rem = exp_syms(hu, hb, v) + tail;
+    let rest = (if b > 1 { nbits_syms(hb, msb_bits(v, (b - 1) as nat)) } else { Seq::<Sym>::empty() }) + tail;
+    assert(rem =~= unary_syms(hu, b) + rest);
+    assert(unary_syms(hu, b).skip(0) =~= unary_syms(hu, b));
+    lemma_unary_inverse(hu, b, 0, rest);
+    lemma_bitlen_bounds(v);
+    lemma2_to64(); lemma2_to64_rest();
+    assert(b <= 32) by { if b > 32 { lemma_pow2_le(32, (b - 1) as nat); } }
+    assert(rem.skip(b + 1) =~= rest);
+    if b > 1 {
+        let bs = msb_bits(v, (b - 1) as nat);
+        lemma_nbits_inverse(hb, bs, tail);
+        lemma_val_msb_bits(v, (b - 1) as nat);
+        // v % 2^(b-1) + 2^(b-1) == v   because 2^(b-1) <= v < 2^b
+        let p = pow2((b - 1) as nat) as int;
+        lemma_pow2_unfold(b as nat);
+        vstd::arithmetic::div_mod::lemma_fundamental_div_mod_converse(v as int, p, 1, v - p);
+        assert(rest.skip(b - 1) =~= tail);
+        assert(rem.skip(2 * b) =~= tail) by { assert(rem.skip(b + 1).skip(b - 1) =~= rem.skip(2 * b)); }
+    } else {
+        assert(rest =~= tail);
+        if b == 0 { assert(v == 0); } else { assert(v == 1) by { assert(pow2(0) == 1 && pow2(1) == 2); } }
+    }
+}
